@@ -497,4 +497,144 @@ def matchAttributes (c : CI) (a : Match.Attrs) : Option Picker :=
              upstreams := if p.upstreamSubset.length ≠ 0 then p.upstreamSubset else allEndpoints c,
              enableLog := isLogEnabled (loadLogging c) p.logMode }
 
+/-! ## the controller: lister, manager, queue (pkg/gateway/controllers/upstream_controller.go) -/
+
+/-- `UpstreamClusterController`: the informer cache, the `clusters.Manager` map (lower-cased key ↦ `*ClusterInfo`,
+    several keys may share one pointer: pointers are indices into `heap`), and the work queue (each item is an
+    event object, of which the handler only uses the name) -/
+structure Ctl where
+  lister : List (Str × Obj)
+  mgr : List (Str × Nat)
+  heap : List CI
+  queue : List Str
+
+def Ctl.init : Ctl := ⟨[], [], [], []⟩
+
+/-- `manager.Get` -/
+def Ctl.get (env : Env) (st : Ctl) (name : Str) : Option (Nat × CI) :=
+  match alookup (env.lower name) st.mgr with
+  | none => none
+  | some id =>
+    match st.heap[id]? with
+    | none => none
+    | some ci => some (id, ci)
+
+/-- `AddWithKey` -/
+def Ctl.addWithKey (env : Env) (st : Ctl) (key : Str) (id : Nat) : Ctl :=
+  { st with mgr := astore (env.lower key) id st.mgr }
+
+/-- `Delete` / `DeleteWithStop` (stopping cancels the cluster's context: not part of the state observed here) -/
+def Ctl.delete (env : Env) (st : Ctl) (name : Str) : Ctl :=
+  { st with mgr := aerase (env.lower name) st.mgr }
+
+/-- is `Get(name)` a `ClusterInfo` of another cluster than `clusterName` -/
+def Ctl.ownedByOther (env : Env) (st : Ctl) (clusterName name : Str) : Bool :=
+  match st.get env name with
+  | some (_, c) => c.cluster ≠ clusterName
+  | none => false
+
+/-- `checkServerNameConflict`: `true` = error -/
+def checkServerNameConflict (env : Env) (st : Ctl) (clusterName : Str) (old new : List Str) : Bool :=
+  if old = new then false                                           -- reflect.DeepEqual
+  else if new.any (fun n => st.ownedByOther env clusterName n) then true
+  else old.any (fun o => !memb o new && st.ownedByOther env clusterName o)
+
+/-- `checkUpstreamServerNameConflict` -/
+def checkUpstreamServerNameConflict (env : Env) (st : Ctl) (cluster : Obj) : Bool :=
+  let clusterName := env.lower cluster.name
+  let new := clusterName :: cluster.secureServing.serverNames.map env.lower
+  let old := match st.get env clusterName with
+    | some (_, info) => loadServerNames env info
+    | none => []
+  checkServerNameConflict env st clusterName old new
+
+/-- `AddOrUpdateForServerNames`: `none` = error (conflict), nothing changed -/
+def addOrUpdateForServerNames (env : Env) (st : Ctl) (old : List Str) (id : Nat) (info : CI) : Option Ctl :=
+  let new := loadServerNames env info
+  if old = new then some st
+  else if checkServerNameConflict env st info.cluster old new then none
+  else
+    let st1 := old.foldl (fun s o =>
+      if memb o new then s
+      else
+        match s.get env o with
+        | some (_, c) => if c.cluster = info.cluster then s.delete env o else s
+        | none => s) st
+    some (new.foldl (fun s n => if memb n old then s else s.addWithKey env n id) st1)
+
+/-- `DeleteForServerNames` -/
+def deleteForServerNames (env : Env) (st : Ctl) (clusterName : Str) : Ctl :=
+  match st.get env clusterName with
+  | none => st
+  | some (_, info) =>
+    (loadServerNames env info).foldl (fun s n =>
+      match s.get env n with
+      | some (_, c) => if c.cluster = clusterName then s.delete env n else s
+      | none => s) st
+
+/-- answer of the sync handler: done; deliver the item again later (`RequeueAfter`); the process panicked -/
+inductive HResult
+  | done (st : Ctl)
+  | requeue (st : Ctl)
+  | crash
+
+/-- `syncUpstreamCluster` for a queue item naming `name` -/
+def syncUpstreamCluster (env : Env) (conn : Conn) (st : Ctl) (name : Str) (ord : List Str) : HResult :=
+  let clusterName := env.lower name
+  match alookup name st.lister with                   -- m.lister.Get(cluster.Name)
+  | none => .done (deleteForServerNames env st clusterName)
+  | some cluster =>                                   -- cluster = latest
+    if checkUpstreamServerNameConflict env st cluster then .requeue st
+    else
+      match st.get env clusterName with
+      | none =>
+        -- bootstrap: CreateClusterInfo
+        match fresh env conn cluster ord with
+        | .crash => .crash
+        | .fail _ _ => .requeue st
+        | .ok info =>
+          let id := st.heap.length
+          let st1 := { st with heap := st.heap ++ [info] }
+          match addOrUpdateForServerNames env st1 [] id info with
+          | none => .requeue st
+          | some st2 => .done st2
+      | some (id, info) =>
+        let oldServerNames := loadServerNames env info
+        match sync env info cluster ord with
+        | .crash => .crash
+        | .fail _ info' => .requeue { st with heap := st.heap.set id info' }
+        | .ok info' =>
+          let st1 := { st with heap := st.heap.set id info' }
+          match addOrUpdateForServerNames env st1 oldServerNames id info' with
+          | none => .requeue st1
+          | some st2 => .done st2
+
+/-- what happens to the gateway: the API server stores / deletes an object (the informer updates the lister,
+    then the event handler enqueues the event object), or the queue worker takes pending item `i` (any order:
+    delayed requeues come back whenever) -/
+inductive COp
+  | write (o : Obj)
+  | delete (name : Str)
+  | deliver (i : Nat) (ord : List Str)
+
+def removeAt (l : List Str) (i : Nat) : List Str := l.take i ++ l.drop (i + 1)
+
+/-- one step; `none` = the process is gone -/
+def Ctl.step (env : Env) (conn : Conn) (st : Ctl) : COp → Option Ctl
+  | .write o => some { st with lister := astore o.name o st.lister, queue := st.queue ++ [o.name] }
+  | .delete name => some { st with lister := aerase name st.lister, queue := st.queue ++ [name] }
+  | .deliver i ord =>
+    match st.queue[i]? with
+    | none => some st
+    | some name =>
+      match syncUpstreamCluster env conn st name ord with
+      | .crash => none
+      | .requeue st' => some st'                                   -- same item stays pending
+      | .done st' => some { st' with queue := removeAt st'.queue i }
+
+def Ctl.run (env : Env) (conn : Conn) : Option Ctl → List COp → Option Ctl
+  | none, _ => none
+  | some st, [] => some st
+  | some st, op :: r => Ctl.run env conn (st.step env conn op) r
+
 end KG.Model.ClusterSync
